@@ -48,14 +48,14 @@ func syncPathFns(p *Program) map[*ssa.Function]bool {
 //	    (an inverted check reports success as failure and goes on after failures);
 //	(b) the error is compared at all, or returned / aggregated / stored
 //	    (an error check that was dropped).
-func errorChecksMeanWhatTheySay(r *Report, p *Program, rule string) {
+func errorChecksMeanWhatTheySay(r *Report, p *Program, rule string, only ...func(f *ssa.Function) bool) {
 	r.Rule(rule, "sync paths: an error result is examined (tested, returned or aggregated); on its 'err == nil' edge the function does not return that error as its failure")
 	fns := syncPathFns(p)
 	ord := map[string]int{}
 	n := 0
 	var list []*ssa.Function
 	for _, f := range p.Scanned {
-		if fns[f] {
+		if fns[f] && (len(only) == 0 || only[0](f)) {
 			list = append(list, f)
 		}
 	}
@@ -222,11 +222,74 @@ func errorChecksMeanWhatTheySay(r *Report, p *Program, rule string) {
 						ok, why = false, "where "+Short(k)+" SUCCEEDED the function runs straight into an error return, where it FAILED it does not: the error check is inverted"
 					}
 				}
+				// third form: the success edge hands THE (nil) ERROR to an error reporter (HandleError, logger.Error)
+				// straight away — whatever the function's own result type is
+				if ok && len(from) > 0 {
+					w := engine.Query{Fn: f, From: from, CutInstr: func(x ssa.Instruction) bool { return x == ssa.Instruction(call) },
+						CutEdge: func(bb *ssa.BasicBlock, i int, l *Lit) bool { return l != nil },
+						Target: func(x ssa.Instruction) bool {
+							ci, isCI := x.(ssa.CallInstruction)
+							if !isCI {
+								return false
+							}
+							kk := engine.CallKey(ci.Common())
+							if !(strings.HasSuffix(kk, "runtime.HandleError") || strings.HasSuffix(kk, "logr.Logger.Error")) {
+								return false
+							}
+							for _, a := range ci.Common().Args {
+								if sameOrPhiOf(unwrapIface(a), ev) || a == ev {
+									return true
+								}
+							}
+							return false
+						}}.Find()
+					if w != nil {
+						ok, why = false, "where "+Short(k)+" SUCCEEDED its (nil) error is reported at "+p.InstrPos(w.Instr)+" and the result is given up: the error check is inverted"
+					}
+				}
+				// fourth form, for functions that report failure by an empty result: the success edge runs straight
+				// into 'return <zero values>' while the failure edge goes on to use the results
+				if ok && len(from) > 0 && engine.ErrorResultIndex(f) < 0 && f.Signature.Results().Len() > 0 {
+					var fail []engine.Point
+					for _, bb := range f.Blocks {
+						for i := range bb.Succs {
+							if l, isL := engine.EdgeLit(bb, i); isL {
+								if x, isNil, isT := l.NilTest(); isT && !isNil && sameOrPhiOf(x, ev) {
+									fail = append(fail, engine.Point{B: bb.Succs[i]})
+								}
+							}
+						}
+					}
+					zeroRet := func(pts []engine.Point) bool {
+						return engine.Query{Fn: f, From: pts, CutInstr: func(x ssa.Instruction) bool { return x == ssa.Instruction(call) },
+							CutEdge: func(bb *ssa.BasicBlock, i int, l *Lit) bool { return l != nil },
+							Target: func(x ssa.Instruction) bool {
+								rt, isR := x.(*ssa.Return)
+								if !isR {
+									return false
+								}
+								for i := range rt.Results {
+									cst, isC := engine.RetVal(rt, i).(*ssa.Const)
+									if !isC || !(cst.Value == nil || cst.Value.String() == "false" || cst.Value.String() == "0" || cst.Value.String() == `""`) {
+										return false
+									}
+								}
+								return true
+							}}.Find() != nil
+					}
+					if len(fail) > 0 && zeroRet(from) && !zeroRet(fail) {
+						ok, why = false, "where "+Short(k)+" SUCCEEDED the function gives up with an empty result, where it FAILED it goes on: the error check is inverted"
+					}
+				}
 				r.Check(rule, c+"[polarity]", p.InstrPos(call), ok, "error examined; success edge does not report it", why)
 			}
 		}
 	}
-	r.Floor(rule, 60)
+	if len(only) == 0 {
+		r.Floor(rule, 60)
+	} else {
+		r.Floor(rule, 5)
+	}
 	_ = n
 }
 
